@@ -107,6 +107,9 @@ func checkC20(ca *checkArgs) int {
 			code = 1
 		}
 	}
+	if c20Nondet != "" {
+		inconclusive("the library's results are not a function of the trace, so a difference between the builds cannot be attributed to the build configuration: %s", c20Nondet)
+	}
 	if len(diffs) > 0 && code == 0 {
 		inconclusive("transcript hashes differ between builds for %d runs but no differing step could be reproduced", len(diffs))
 	}
@@ -173,6 +176,9 @@ func c20Differs(binD, binP string, tr map[string]interface{}, calls []interface{
 	return i, x, y, i >= 0
 }
 
+// c20Nondet is set when the same-build control of reportC20 failed.
+var c20Nondet string
+
 func reportC20(ca *checkArgs, binD, binP string, idx uint64) string {
 	tr := fetchTrace(binD, ca.seed, idx)
 	if tr == nil {
@@ -181,6 +187,14 @@ func reportC20(ca *checkArgs, binD, binP string, idx uint64) string {
 	calls, _ := tr["calls"].([]interface{})
 	step, x, y, differs := c20Differs(binD, binP, tr, calls)
 	if !differs {
+		return ""
+	}
+	// control: two processes of the SAME build. If they disagree too, the library
+	// is not a deterministic function of the trace (randomness drawn outside the
+	// entropy seam, e.g. a generator keyed at package initialisation) and the
+	// difference cannot be attributed to the build configuration.
+	if _, cx, cy, d := c20Differs(binD, binD, tr, calls); d {
+		c20Nondet = fmt.Sprintf("run %d: two processes of the default build disagree with each other (%s | %s)", idx, cx, cy)
 		return ""
 	}
 	if step+1 < len(calls) {
